@@ -140,7 +140,7 @@ PROPS["C14"] = {
 # not under contract; that they leave what gets stored alone is checked by the store explorer on every run
 PROPS["C14"]["bounded_always"] = {"xandikos.icalendar.ICalendarFile.describe_delta": {
     "driver": "store_explore.py", "request": {"backends": ["tree-git"]},
-    "bound": "tree-git: histories of <= 5 store operations (quick: 250 seeded samples; thorough: all of length <= 3) whose uploads carry "
+    "bound": "tree-git: histories of <= 5 store operations (quick: 250 seeded samples; thorough: all of length <= 2 plus 3000 seeded samples of length <= 6) whose uploads carry "
              "multi-valued properties in unsorted order; after every acknowledged write the stored bytes must equal normalized() of a "
              "freshly parsed copy of the upload"}}
 PROPS["C06"]["functions"] += ["xandikos.icalendar.ICalendarFile.get_uid"]
@@ -271,13 +271,19 @@ PROPS["C02"]["functions"] += [V + "_get_etag", V + "import_one", V + "_get_raw"]
 PROPS["C03"]["functions"] += [V + "import_one", V + "delete_one"]
 PROPS["C04"]["functions"] += [V + "import_one"]
 STORE_EXPLORE = "store_explore.py"
+_STORE_BOUND = ("histories of <= 5 store operations (quick: 250 seeded samples per back end; thorough: all of length <= 2 plus 3000 seeded samples of length <= 6) over "
+                "2 names x 2 uids x {no, current, stale etag}, deletes, restarts, on tree-git, bare-git and vdir")
 _VDIR_REST = {V + "_scan_uids": {"driver": STORE_EXPLORE, "request": {"backends": ["vdir"]},
                                  "bound": "vdir only: histories of <= 5 store operations (quick: 250 seeded samples; thorough: all of "
-                                          "length <= 3) over 2 names x 2 uids x {no, current, stale etag}, deletes, restarts. Stands in "
+                                          "length <= 2 plus 3000 seeded samples of length <= 6) over 2 names x 2 uids x {no, current, stale etag}, deletes, restarts. Stands in "
                                           "for VdirStore._scan_uids / _check_duplicate / iter_with_etag, which are not under contract."}}
-for _pid in ("C01", "C03", "C06"):
+for _pid in ("C03", "C06"):
     PROPS[_pid]["bounded_always"] = dict(_VDIR_REST)
-_STORE_BOUND = ("histories of <= 5 store operations (quick: 250 seeded samples per back end; thorough: all of length <= 3) over "
+# C01 is a property of whole request histories: the store explorer runs on all three back ends on every check (this also covers
+# the helpers between validation and the write primitive - describe_delta, component factories - that carry no contract)
+PROPS["C01"]["bounded_always"] = {"xandikos.store.Store.import_one (histories)": {
+    "driver": STORE_EXPLORE, "bound": _STORE_BOUND}}
+_STORE_BOUND = ("histories of <= 5 store operations (quick: 250 seeded samples per back end; thorough: all of length <= 2 plus 3000 seeded samples of length <= 6) over "
                 "2 names x 2 uids x {no, current, stale etag}, deletes, restarts, on tree-git, bare-git and vdir")
 for _pid, _sp in PROPS.items():
     for _f in _sp["functions"]:
